@@ -768,7 +768,7 @@ pub fn run(cfg: &RunCfg) -> Report {
     ];
     runner::replay_pinned(&mut rep, cfg, &replay);
     runner::replay_regress(&mut rep, cfg, &replay);
-    explore(&mut rep, cfg, "pipeline", cfg.cases(60_000, 1_500_000), case_strategy, |c| run_case(cfg, c, false));
+    explore(&mut rep, cfg, "pipeline", cfg.cases(400_000, 6_000_000), case_strategy, |c| run_case(cfg, c, false));
     rep
 }
 
